@@ -185,6 +185,21 @@ pub fn alphabet(doc: &Value, size: AlphaSize, max_names: usize, spellings: bool)
                 }
             }
         }
+        // name-only selections longer than the object they meet has members, in every order and with repetitions
+        {
+            let ns: Vec<Sel> = names.iter().take(4).map(|n| Sel::name(n)).collect();
+            for a in &ns {
+                for b in &ns {
+                    for c in &ns {
+                        actions.push(Seg::child(vec![a.clone(), b.clone(), c.clone()]));
+                    }
+                }
+            }
+            if ns.len() >= 3 {
+                actions.push(Seg::child(vec![ns[1].clone(), ns[0].clone(), ns[2].clone(), ns[0].clone()]));
+                actions.push(Seg::child(vec![ns[2].clone(), ns[2].clone(), ns[1].clone(), ns[0].clone(), ns[1].clone()]));
+            }
+        }
         let triples: Vec<Vec<Sel>> = vec![
             vec![Sel::Index(1), Sel::Index(0), Sel::Index(1)],
             vec![Sel::Wild, Sel::Index(0), Sel::Wild],
